@@ -29,7 +29,10 @@ theorem sites_agree_old :
     Gen.whOldOneOctetLimit = 256 ∧ Gen.whOldTwoOctetLimit = 65536 ∧
     Gen.hlOldOneOctetLimit = Gen.whOldOneOctetLimit ∧ Gen.hlOldTwoOctetLimit = Gen.whOldTwoOctetLimit ∧
     Gen.phwOldOneOctetLimit = Gen.whOldOneOctetLimit ∧ Gen.phwOldTwoOctetLimit = Gen.whOldTwoOctetLimit ∧
-    Gen.phtOldOneOctetLimit = Gen.whOldOneOctetLimit ∧ Gen.phtOldTwoOctetLimit = Gen.whOldTwoOctetLimit := by
+    Gen.phtOldOneOctetLimit = Gen.whOldOneOctetLimit ∧ Gen.phtOldTwoOctetLimit = Gen.whOldTwoOctetLimit ∧
+    -- the length TYPE chosen by `old_fixed_type` (header octet) and the number of length OCTETS written
+    -- (`to_writer`) switch at the same lengths
+    Gen.oftOneOctetLimit = Gen.phtOldOneOctetLimit ∧ Gen.oftTwoOctetLimit = Gen.phtOldTwoOctetLimit := by
   decide
 
 theorem partial_limits_rfc :
